@@ -425,7 +425,16 @@ Qed.
 
 Definition nonneg_list (l : list Z) : Prop := Forall (fun d => 0 <= d) l.
 Definition pos_list (l : list Z) : Prop := Forall (fun d => 0 < d) l.
-Definition nonneg_chunks (ch : list (list Z)) : Prop := Forall (Forall (fun s => 0 <= s)) ch.
+Definition proper_chunks (ch : list (list Z)) : Prop := Forall proper_dim ch.
+
+Lemma list_summands_proper A b r : 0 < b -> 0 <= A -> 0 <= r -> proper_dim (list_summands A b r).
+Proof.
+  intros Hb HA Hr. destruct (list_summands_spec A b r Hb HA Hr) as (S & Z0 & NZ).
+  destruct (Z.eq_dec (r * A) 0) as [E|E]; [left; now apply Z0|].
+  right. split.
+  - intros N. rewrite N in S. apply E. rewrite <- S. reflexivity.
+  - eapply Forall_impl; [|exact (proj1 (NZ E))]. cbn. intros; lia.
+Qed.
 
 Lemma summands_zip_cons a sh c cs :
   summands_zip (a :: sh) (c :: cs) = list_summands a c 1 :: summands_zip sh cs.
@@ -433,7 +442,7 @@ Proof. reflexivity. Qed.
 
 Lemma summands_zip_spec sh : forall cs,
   nonneg_list sh -> pos_list cs -> length sh = length cs ->
-  map zsum (summands_zip sh cs) = sh /\ nonneg_chunks (summands_zip sh cs).
+  map zsum (summands_zip sh cs) = sh /\ proper_chunks (summands_zip sh cs).
 Proof.
   induction sh as [|a sh IH]; intros [|c cs] Hs Hc L; try discriminate.
   - split; [reflexivity | constructor].
@@ -443,16 +452,18 @@ Proof.
     destruct (list_summands_spec a c 1 Hc0 Ha ltac:(lia)) as (S & _).
     split.
     + rewrite S, E. f_equal. lia.
-    + constructor; [apply list_summands_nonneg; lia | exact F].
+    + constructor; [apply list_summands_proper; lia | exact F].
 Qed.
 
 Lemma singletons_spec sh : nonneg_list sh ->
-  map zsum (map (fun d : Z => [d]) sh) = sh /\ nonneg_chunks (map (fun d : Z => [d]) sh).
+  map zsum (map (fun d : Z => [d]) sh) = sh /\ proper_chunks (map (fun d : Z => [d]) sh).
 Proof.
   induction sh as [|a sh IH]; intros H; [split; [reflexivity | constructor]|].
   inversion H as [|? ? Ha H']; subst. destruct (IH H') as [E F]. cbn [map]. split.
   - rewrite E. f_equal. unfold zsum. cbn. lia.
-  - constructor; [repeat constructor; exact Ha | exact F].
+  - constructor; [|exact F].
+    destruct (Z.eq_dec a 0) as [->|NZ]; [now left|].
+    right. split; [discriminate|]. repeat constructor. lia.
 Qed.
 
 Lemma Forall_firstn_skipn {X} (P : X -> Prop) k l :
@@ -461,7 +472,7 @@ Proof. intros H. rewrite <- (firstn_skipn k l) in H. now apply Forall_app in H. 
 
 Lemma branch1_spec sh cs : nonneg_list sh -> pos_list cs -> (length cs <= length sh)%nat ->
   let ch := summands_zip (firstn (length cs) sh) cs ++ map (fun d : Z => [d]) (skipn (length cs) sh) in
-  map zsum ch = sh /\ nonneg_chunks ch.
+  map zsum ch = sh /\ proper_chunks ch.
 Proof.
   intros Hs Hc L ch. subst ch.
   destruct (Forall_firstn_skipn _ (length cs) sh Hs) as [H1 H2].
@@ -470,7 +481,7 @@ Proof.
   destruct (singletons_spec _ H2) as [E2 F2].
   split.
   - rewrite map_app, E1, E2. apply firstn_skipn.
-  - unfold nonneg_chunks. apply Forall_app. now split.
+  - unfold proper_chunks. apply Forall_app. now split.
 Qed.
 
 Lemma shape_nonneg c : nonneg_list (c_dshape c) -> 0 <= c_rows c -> nonneg_list (shape c).
@@ -483,16 +494,16 @@ Qed.
 
 Definition chunks_post (c : cons) : Prop :=
   match chunks c with
-  | Ok ch => length ch = length (shape c) /\ map zsum ch = shape c /\ nonneg_chunks ch /\
+  | Ok ch => length ch = length (shape c) /\ map zsum ch = shape c /\ proper_chunks ch /\
              (length (c_chunk c) <= length (shape c))%nat /\ finding_C36_a c = false
   | Err e => (e = ValueError /\ (length (shape c) < length (c_chunk c))%nat) \/
              (e = IndexError /\ finding_C36_a c = true /\ (length (c_chunk c) <= length (shape c))%nat)
   end.
 
 Lemma ok_from_sum c ch cs sh : c_chunk c = cs -> shape c = sh ->
-  map zsum ch = sh -> nonneg_chunks ch -> (length cs <= length sh)%nat ->
+  map zsum ch = sh -> proper_chunks ch -> (length cs <= length sh)%nat ->
   finding_C36_a c = false ->
-  length ch = length sh /\ map zsum ch = sh /\ nonneg_chunks ch /\
+  length ch = length sh /\ map zsum ch = sh /\ proper_chunks ch /\
   (length cs <= length sh)%nat /\ finding_C36_a c = false.
 Proof.
   intros _ _ E F L A. repeat split; try assumption. rewrite <- E. symmetry. apply map_length.
@@ -531,7 +542,7 @@ Proof.
         destruct (list_summands_spec d0 c0 (c_rows c) Hc0 Hd0 Hr) as (S & _).
         apply (ok_from_sum c _ _ _ Ecs Esh).
         -- cbn [app map]. rewrite S, C1. reflexivity.
-        -- unfold nonneg_chunks. cbn [app]. constructor; [now apply list_summands_nonneg | exact C2].
+        -- unfold proper_chunks. cbn [app]. constructor; [now apply list_summands_proper | exact C2].
         -- cbn [length]. lia.
         -- unfold finding_C36_a. rewrite Ed. cbn [length Nat.eqb]. rewrite andb_false_r. reflexivity.
 Qed.
@@ -792,7 +803,7 @@ Lemma chunks_valid p c ds c' :
   params_nonneg p -> construct p = Ok c -> wf_weak ds -> consume_all c ds = Ok c' ->
   finding_C36_a c' = false -> finding_C36_b c' = false ->
   (exists ch, chunks c' = Ok ch /\ length ch = length (shape c') /\ map zsum ch = shape c' /\
-              nonneg_chunks ch) \/
+              proper_chunks ch) \/
   (chunks c' = Err ValueError /\ p_chunk p = Some (c_chunk c') /\
    (length (shape c') < length (c_chunk c'))%nat).
 Proof.
